@@ -96,7 +96,7 @@ def executor_findings(cases, impl):
             continue
         info = case_info(line)
         cid = info["cid"]
-        if not cid.startswith("stream."):
+        if not (cid.startswith("stream.") or cid.startswith("inter.")):
             continue
         tr = impl.get(cid)
         if not tr:
@@ -104,6 +104,14 @@ def executor_findings(cases, impl):
         st, _ = mon_of(tr)
         if st is None or st == "ok":
             continue
+        if cid.startswith("inter."):
+            # an object of an interleaved case: the failing input is the whole case (the I line), not the object alone
+            il = next((l for l in cases if l.startswith("I " + cid.split("/")[0] + " ")), None)
+            if il is None and not any(l.startswith("I ") for l in cases):
+                il = line
+            if il is None:
+                continue
+            sline, line = line, il
         acts = actions_of(tr)
         try:
             m1, _ = rerun_monitor(info, acts, lenient=True)
@@ -124,6 +132,11 @@ def executor_findings(cases, impl):
             seen.add(pid)
             d8 = rep_codes is not None and e in ("E_leftover", "E_budget_DISK") and e not in rep_codes
             f = dict(pid=pid, cid=cid, line=line, err=e, index=idx, d8=d8)
+            if cid.startswith("inter."):
+                f["sline"] = sline          # the object's own parameters (known-findings are matched on these)
+                f["what"] = "object %s of this interleaved case: %s at action %d of its stream" % (cid.split("/")[1], e, idx)
+                out.append(f)
+                continue
             if first_raw is not None and (e, idx) != first_raw:
                 f["what"] = "%s at action %d (executor run leniently; an earlier requirement already failed: %s at action %d)" % (e, idx, first_raw[0], first_raw[1])
             else:
@@ -457,7 +470,7 @@ def oracle_ctor(cases, impl):
         else:
             if not dom and yielded:
                 out.append(fail("C17", info, line, "parameters outside the documented domain produced actions", "invalid_accepted"))
-            if dom and cid.startswith("stream.") and info["cls"] not in ("none",):
+            if dom and cid.startswith("stream.") and info["cls"] not in ("none",) and any(o[0] in "rlL" for o in info["ops"]):   # (a run was asked for)
                 st, d = mon_of(tr)
                 if not any(o == "Y:ER" for k, o, _ in ns):
                     out.append(fail("C17", info, line, "valid parameters did not yield a complete stream", "incomplete"))
